@@ -358,7 +358,11 @@ func TestExample(t *testing.T) {
 	rapid.Check(t, func(t *rapid.T) {
 		var c Case
 		feature := false
-		switch rapid.IntRange(0, 7).Draw(t, "family") {
+		fam := rapid.IntRange(0, 10).Draw(t, "family")
+		if fam > 7 {
+			fam = 5 // (reference topologies yield a case in one of four draws only: they are drawn more often)
+		}
+		switch fam {
 		case 6: // types the root knows only through other types (they were added to a type, not to the root)
 			id := lib.Named{Name: "@id", Text: rapid.SampledFrom([]string{"1 // {min: 1}", "\"abc\" // {minLength: 2}", "\"kab\" // {regex: \"^k\"}"}).Draw(t, "innerId")}
 			base := lib.Named{Name: "@base", Text: "{\n  \"created\": \"2021-01-01\", // {type: \"date\"}\n  \"by\": @id // {optional: true}\n}", Inner: []lib.Named{id}}
